@@ -387,7 +387,13 @@ fn fault_backend<B: Backend>(opts: &Opts, rep: &mut Report) {
         rep.inconclusive("RNG shim not loaded (LD_PRELOAD): fault injection did not run");
         return;
     };
-    if opts.shard != (B::VER as usize - 1) % opts.nshards {
+    // `--part failfirst`: one process per (backend, operation); the very first OS draw of the process fails
+    let failfirst = opts.part.as_deref() == Some("failfirst");
+    if failfirst {
+        if opts.shard % 4 != B::VER as usize - 1 {
+            return;
+        }
+    } else if opts.shard != (B::VER as usize - 1) % opts.nshards {
         return;
     }
     let mut rng = Rng::derive(opts.seed, &format!("c16.faults.{}", B::NAME), 0);
@@ -411,6 +417,48 @@ fn fault_backend<B: Backend>(opts: &Opts, rep: &mut Report) {
             run: Box::new(move || wrap::<B>(kind, &key_raw, &s2).and_then(|b| unwrap::<B>(kind, &b, &s2).and_then(|k| if k == key_raw { Ok(b) } else { Err(PasetoError::CryptoError) }))),
             max_fail_indices: 8,
         });
+    }
+    if failfirst {
+        let Some(op) = ops.get(opts.shard / 4) else { return };
+        let class = format!("{}.{}", B::NAME, op.name);
+        let (r, st) = shim.window(0, -1, None, || guard(|| (op.run)()));
+        let detail = |what: &str| json!({"backend": B::NAME, "operation": op.name, "mode": "the first OS draw of the process fails", "failed_draws": st.failed, "what": what});
+        rep.case(&format!("{class}.first-draw-of-process-fails"), fnv(class.as_bytes()), true);
+        if st.failed == 0 {
+            rep.count(&format!("{class}.makes-no-os-draw"));
+            return;
+        }
+        match r {
+            Ok(Err(e)) => rep.count(&format!("fail-closed.err.{}", err_kind(&e))),
+            Ok(Ok(out)) => rep.violation(&format!("C16|{class}|output-produced-despite-rng-failure"), detail(&format!("operation returned Ok: {}", out.chars().take(200).collect::<String>()))),
+            Err(pn) => rep.violation(&format!("C16|{class}|panic-on-rng-failure"), detail(&format!("no output, but a panic instead of an error: {pn}"))),
+        }
+        // the RNG is healthy again: every further operation must consult it and produce fresh output
+        let mut outs = vec![];
+        let mut without_draw = 0;
+        for _ in 0..40 {
+            heartbeat(&class);
+            let (r2, st2) = shim.window(-1, -1, None, || guard(|| (op.run)()));
+            if st2.draws == 0 {
+                without_draw += 1;
+            }
+            match r2 {
+                Ok(Ok(o)) => outs.push(o),
+                other => {
+                    rep.violation(&format!("C16|{class}|operation-fails-after-recovered-rng-failure"), detail(&format!("{:?}", other.map(|r| r.map(|_| ()).map_err(|e| err_kind(&e))))));
+                    break;
+                }
+            }
+        }
+        let distinct: std::collections::HashSet<&String> = outs.iter().collect();
+        if distinct.len() != outs.len() {
+            rep.violation(&format!("C16|{class}|outputs-repeat-after-rng-failure"), detail("operations following the failed first draw produced identical outputs"));
+        }
+        if without_draw > 0 {
+            rep.violation(&format!("C16|{class}|no-os-draw-after-rng-failure"), detail(&format!("{without_draw} of {} operations after the failed first draw of the process produced output without consulting the OS: whatever they used was initialised while the RNG was failing", outs.len())));
+        }
+        rep.sample_class("first-draw-of-process-fails", 8, || detail("Err, then 40 fresh outputs each drawn from the OS"));
+        return;
     }
     for op in &ops {
         let class = format!("{}.{}", B::NAME, op.name);
@@ -578,6 +626,13 @@ pub fn run(opts: &Opts) {
         rep.set(
             "rule",
             json!("Part A0 (thread-first): rounds of 8 freshly spawned threads whose first library operation is one operation of a given kind (9 kinds), fields compared within the round and logged with the rest; Part A: per backend and operation kind N consecutive operations with identical key and message (quick 5000, thorough 100000; RSA fewer); the random field of every output (token nonce, ECDSA r, whole PSS signature, PIE nonce, PBKW salt and nonce, PKE ephemeral key / RSA-KEM ciphertext, generated key bytes) is logged; online: not constant / not a fixed pattern, consecutive outputs differ; offline checker over the logs of all shards: no value repeats; distinct = distinct random values. Ed25519 and RFC 6979 signatures carry no randomness and are excluded"),
+        );
+    }
+    if opts.part.as_deref() == Some("failfirst") {
+        for_backends!(opts, fault_backend, opts, &mut rep);
+        rep.set(
+            "rule_failfirst",
+            json!("one process per (getrandom backend, operation kind): the very first OS draw the process ever makes fails; the operation must return Err, and each of the next 40 operations (RNG healthy) must draw from the OS again and produce distinct output - state initialised during the failure must not be used"),
         );
     }
     if opts.wants_part("faults") && opts.part.is_some() {
